@@ -18,9 +18,11 @@ import (
 //   [0, nShapes)            the shape enumerator: wrapper chains x call forms x recursion kinds x definers
 //   [nShapes, nShapes+nBlk) blocked shapes (handler-bind / ignore-errors / load-string / macro body)
 //   [.., ..+nTwin)          twin runs of generated programs under {default, dormant debugger, profiler}
-//   the rest (nExits)       exit shapes: tail-position constructs exercised along each of their internal
-//                           exits, the exit taken being chosen by the turn number (appended last so that the
+//   [.., ..+nExits)         exit shapes: tail-position constructs exercised along each of their internal
+//                           exits, the exit taken being chosen by the turn number (appended so that the
 //                           indices - hence the generated programs - of the earlier blocks stay what they were)
+//   the rest (nEsc)         escape shapes (c02_escape.go): every turn creates closures over its own
+//                           parameters / locals, they escape the turn and are called later (appended last)
 
 func init() {
 	fw.Register(&fw.Prop{
@@ -28,6 +30,7 @@ func init() {
 		Level: "exploration",
 		Rule: "(a) every chain of <=2 tail-position wrappers (14 wrappers) x 5 call forms x {self, 2-cycle, 3-cycle} x {defun, labels, set-lambda} is run with iteration counts {1,2,10,100,1000(,20000)}; a host builtin samples len(Stack.Frames) and TailIterations each turn; longer chains are sampled; " +
 			"(a') exit shapes: every tail-position construct is also exercised along each of its internal exits (dotimes with a zero / negative / turn-dependent count, with and without body; if / cond branch and clause chosen by the turn number; let, let*, flet, labels, macrolet with zero, one, many bindings; progn / or / thread-first / thread-last with one..many forms; the call form itself chosen by the turn), alone x 11 call forms x 3 recursion kinds and in sampled chains with the other wrappers, iteration counts {1,2,24,120,1200(,24000)}: the sampled entry heights must repeat with the period of the exit selection (12 turns) and the maximum height must be the same for 24 and for 120, 1200 turns; " +
+			"(a'') escape shapes: every turn of the loop creates one or two closures over the loop's own parameters and locals of the turn (directly, through a nested lambda, a let / let* / flet / labels around the call, expr, an inner parameter, an &optional parameter, a closure that set!s what it captured; a fourth formal of kind &optional / &rest / &key), with set! of a captured parameter before / after the closure is created, and makes them escape (cons, append! to a vector, assoc! into a sorted-map, a global, a chain of closures, handed to the next turn which calls it); all (escape x capture x mutation) with the other dimensions, wrappers, call forms, recursion kinds and definers rotated and sampled; the closures are called after the loop (or in the next turn): the list of their values must be equal with elimination on and off and equal to the list predicted by construction (each closure sees the variables of the turn that created it); stack oracles as in (a); " +
 			"(b) loops routed through handler-bind / ignore-errors / load-string / a macro body must keep their frames and handlers; (c) generated programs are run under elimination on, off (dormant debugger) and profiler and their transcripts compared. distinct_nontrivial counts distinct (shape, recursion kind, definer, iteration count) and program-feature signatures whose runs took >= 5 steps",
 		Assumptions: []string{
 			"a dormant Debugger (IsEnabled()==false) is the configuration that disables elimination, as the property states",
@@ -42,7 +45,7 @@ func init() {
 	})
 }
 
-type c02Lay struct{ nShapes, nBlocked, nTwin, nExits, total int }
+type c02Lay struct{ nShapes, nBlocked, nTwin, nExits, nEsc, total int }
 
 func c02Layout(tier string) c02Lay {
 	l := c02Lay{}
@@ -52,7 +55,8 @@ func c02Layout(tier string) c02Lay {
 	l.nBlocked = pick(tier, 60, 600)
 	l.nTwin = pick(tier, 3000, 200000)
 	l.nExits = c02ExitExhaustive() + pick(tier, 250, 5000)
-	l.total = l.nShapes + l.nBlocked + l.nTwin + l.nExits
+	l.nEsc = c02EscExhaustive() + pick(tier, 200, 5000)
+	l.total = l.nShapes + l.nBlocked + l.nTwin + l.nExits + l.nEsc
 	return l
 }
 
@@ -146,6 +150,7 @@ type c02Shape struct {
 	iters   []int
 	side    bool // the body also makes a NON-final call for effect to a function of the cycle
 	exits   bool // an exit shape: the path through the chain depends on the turn number
+	esc     *c02Esc // an escape shape: what the turns create and how it outlives them (c02_escape.go)
 }
 
 func (s c02Shape) name() string {
@@ -156,6 +161,9 @@ func (s c02Shape) name() string {
 	sd := ""
 	if s.side {
 		sd = " +non-final-call"
+	}
+	if s.esc != nil {
+		sd += " " + s.esc.name()
 	}
 	return fmt.Sprintf("chain=[%s] call=%s cycle=%d definer=%s%s", strings.Join(ws, ">"), s.call, s.cycle, s.definer, sd)
 }
@@ -353,6 +361,9 @@ func c02ExitShapeFor(w *fw.W, idx, j int, tier string) c02Shape {
 // with (verif:depth) on entry, then either returns acc or makes the wrapped
 // tail call to the next function of the cycle.
 func c02LoopProgram(s c02Shape, n int) string {
+	if s.esc != nil {
+		return c02EscProgram(s, n)
+	}
 	names := []string{"lp-a", "lp-b", "lp-c"}[:s.cycle]
 	var defs []*sx.N
 	mk := func(i int) (*sx.N, *sx.N) { // formals, body
@@ -505,8 +516,10 @@ func c02Run(w *fw.W, idx int) {
 		c02RunBlocked(w, idx-l.nShapes)
 	case idx < l.nShapes+l.nBlocked+l.nTwin:
 		c02RunTwin(w, idx)
-	default:
+	case idx < l.nShapes+l.nBlocked+l.nTwin+l.nExits:
 		c02RunShapeS(w, c02ExitShapeFor(w, idx, idx-(l.nShapes+l.nBlocked+l.nTwin), w.Tier))
+	default:
+		c02RunShapeS(w, c02EscShapeFor(w, idx, idx-(l.nShapes+l.nBlocked+l.nTwin+l.nExits), w.Tier))
 	}
 }
 
@@ -526,6 +539,31 @@ func c02RunShapeS(w *fw.W, s c02Shape) {
 		w.Eval(1)
 		w.Logf("shape %s n=%d\n%s=> %s samples=%d", s.name(), n, src, on.t.Outcome(), len(on.samples))
 		want := fmt.Sprint(n)
+		var calls []c02EscCall
+		if s.esc != nil {
+			calls = s.esc.predict(s.cycle, n)
+			want = c02EscRender(calls)
+		}
+		// twin: elimination off must give the same answer where it fits
+		var off c02Tr
+		twin := n <= 120 || (n <= 1200 && w.Tier == "thorough")
+		if twin {
+			off = c02Exec(src, rt.Opts{Debugger: true})
+			w.Eval(1)
+			twin = !c02LimitErr(off.t)
+		}
+		if s.esc != nil && (on.t.IsErr || on.t.Value != want) {
+			// what escaped a turn was called after later turns had run
+			k := s.esc.key(calls, on.t.Value)
+			if twin && c02Same(on.t, off.t) != "" {
+				w.Violation("tro-changes-escaped-turn-state:"+k, fmt.Sprintf("closures created by the turns of tail loop %s (n=%d) return other values with tail-call elimination than without: on %s, off %s (by construction: %s)",
+					s.name(), n, c02Clip(on.t.Outcome()), c02Clip(off.t.Outcome()), c02Clip(want)), src+"\non:  "+on.t.Value+"\noff: "+off.t.Value+"\nwant: "+want+"\n"+on.t.Msg)
+				return
+			}
+			w.Violation("escaped-turn-state:"+k, fmt.Sprintf("closures created by the turns of tail loop %s (n=%d) gave %s, by construction %s", s.name(), n, c02Clip(on.t.Outcome()), c02Clip(want)),
+				src+"\ngot:  "+on.t.Value+"\nwant: "+want+"\n"+on.t.Msg)
+			return
+		}
 		if on.t.IsErr || on.t.Value != want {
 			w.Violation("tail-loop-result:"+c02ShapeKey(s), fmt.Sprintf("tail loop %s with n=%d gave %s, want %s", s.name(), n, on.t.Outcome(), want),
 				src+"\n"+on.t.Value+"\n"+on.t.Msg)
@@ -562,19 +600,14 @@ func c02RunShapeS(w *fw.W, s c02Shape) {
 			w.Violation("push-pop-imbalance", fmt.Sprintf("pushes=%d pops=%d", on.mon.pushes, on.mon.pops), src)
 			return
 		}
-		// twin: elimination off must give the same answer where it fits
-		if n <= 120 || (n <= 1200 && w.Tier == "thorough") {
-			off := c02Exec(src, rt.Opts{Debugger: true})
-			w.Eval(1)
-			if !c02LimitErr(off.t) {
-				if d := c02Same(on.t, off.t); d != "" {
-					w.Violation("tro-changes-result:"+c02ShapeKey(s), "elimination on/off differ: "+d, src)
-					return
-				}
-				if off.mon.elideEvents != 0 {
-					w.Violation("debugger-does-not-disable-tro", "tail elision happened with a debugger attached", src)
-					return
-				}
+		if twin {
+			if d := c02Same(on.t, off.t); d != "" {
+				w.Violation("tro-changes-result:"+c02ShapeKey(s), "elimination on/off differ: "+c02Clip(d), src)
+				return
+			}
+			if off.mon.elideEvents != 0 {
+				w.Violation("debugger-does-not-disable-tro", "tail elision happened with a debugger attached", src)
+				return
 			}
 		}
 		// the same loop three more times in ONE runtime whose tail-iteration bound
@@ -592,6 +625,11 @@ func c02RunShapeS(w *fw.W, s c02Shape) {
 			}
 		}
 		heightAt[n] = on.mon.maxHeight
+		if s.esc != nil && s.esc.escape == "chain" {
+			// the chain of closures is called after the loop, one inside the other: that
+			// part is not a tail loop; the entry heights above are what is judged
+			delete(heightAt, n)
+		}
 		if h10, ok := heightAt[base]; ok && n > base && on.mon.maxHeight != h10 {
 			w.Violation("tail-loop-stack-grows:"+c02ShapeKey(s),
 				fmt.Sprintf("the maximum stack height of %s grows with the iteration count: %d frames for %d turns, %d for %d turns", s.name(), h10, base, on.mon.maxHeight, n), src)
@@ -621,7 +659,17 @@ func c02ShapeKey(s c02Shape) string {
 	if s.side {
 		sd = "/non-final-call"
 	}
+	if s.esc != nil {
+		sd += "/turn-state-escapes-by-" + s.esc.escape
+	}
 	return fmt.Sprintf("%s/%s/cycle%d/%s%s", strings.Join(ws, ">"), s.call, s.cycle, s.definer, sd)
+}
+
+func c02Clip(s string) string {
+	if len(s) > 160 {
+		return s[:160] + " …"
+	}
+	return s
 }
 
 func c02Heights(s []rt.DepthSample, max int) string {
